@@ -8,7 +8,7 @@
 (*        completed (no panic), within the wall budget, documented           *)
 (*        rejection for inputs beyond the caps                               *)
 (***************************************************************************)
-EXTENDS Integers, Sequences, TLC
+EXTENDS Integers, Sequences, TLC, Json, IOUtils
 Cap == 100
 VARIABLES l, ok
 ZipOK(e) == /\ e.completed
@@ -20,7 +20,8 @@ RunOK(e) == /\ e.completed /\ ~e.panicked
             /\ e.maxlit <= e.litcap                       \* string literals are cut at the documented cap
             /\ (e.bytes > 10485760 => e.rejected)         \* file-size cap
 EvOK(e) == IF e.ev = "zip" THEN ZipOK(e) ELSE IF e.ev = "run" THEN RunOK(e) ELSE TRUE
-T == INSTANCE TraceStateless WITH EventOK <- EvOK
+TraceData == ndJsonDeserialize(IOEnv.TRACE)
+T == INSTANCE TraceStateless WITH EventOK <- EvOK, Trace <- TraceData
 Spec == T!TSSpec
 Accepted == T!TSAccepted
 =============================================================================
